@@ -129,6 +129,18 @@ ExplicitWins == phase = "done" =>
     \A k \in Insts : \A c \in DOMAIN cols :
         (\E p \in props[k] : ColumnOf(p) = c /\ ~Legacy(p)) => ~Legacy(pick[k][c])
 
+\* C07 on this model: no iteration order reaches the output - when the values are chosen the
+\* column table is a function of the population alone and every lookup has exactly one candidate
+ExpectedCols ==
+    LET carried == {p \in UNION {props[k] : k \in Insts} : ~Known(p) \/ IsOk(Serialized(ClassName, p)) \/ Legacy(p)}
+        names == {ColumnOf(p) : p \in carried}
+    IN [c \in names |-> [aliases |-> {p \in carried : ColumnOf(p) = c /\ p # c},
+                          mig |-> \E p \in carried : ColumnOf(p) = c /\ p # c /\ Legacy(p)]]
+OrderFree == phase = "values" =>
+    /\ DOMAIN cols = DOMAIN ExpectedCols
+    /\ \A c \in DOMAIN cols : cols[c].aliases = ExpectedCols[c].aliases
+    /\ \A k \in Insts : \A c \in DOMAIN cols : Cardinality(Candidates(k, c)) = 1
+
 \* binding B: every population (initial state) is printed once and replayed on rbx_binary
 PrintPop == (pos = 1 /\ visited = {} /\ phase = "collect" /\ todo = props[order[1]] /\ DOMAIN cols = {}) =>
                PrintT(<<"REPLAY", ToJson([class |-> ClassName, ids |-> order,
